@@ -36,7 +36,7 @@ RECV_ERRS = [errno.ECONNREFUSED, errno.ECONNRESET, errno.ENETUNREACH, errno.EHOS
 
 # ---- part A: fault scripts through the public single-request API ---------------------------------------
 def alpha_for(T):
-    a = ["drop", "now", "late", "garbage", "short", "badsum", ["exc", 4], "frag1", "dup", "close", "closelate"]
+    a = ["drop", "now", "late", "garbage", "short", "badsum", ["exc", 4], ["exc", 9], "frag1", "dup", "close", "closelate"]
     for e in RECV_ERRS:
         a.append(["rxerr", e, 0.0])
         a.append(["rxerr", e, 0.5 * T])
@@ -260,7 +260,7 @@ def api_calls(g, fam, info_first=True):
 # (ILLEGAL DATA ADDRESS for *every* register is not a network failure: what the library does with refused blocks is
 #  C15/C16's subject, so code 2 is not part of this sweep; codes 4 and 6 must surface as RequestRejectedException)
 FAULT_MODES = ["silent", "garbage", "eof", ["recverr", errno.ECONNREFUSED], ["recverr", errno.ECONNRESET],
-               ["recverr", errno.EHOSTUNREACH], ["exc", 4], ["exc", 6], ["senderr", errno.ENETUNREACH],
+               ["recverr", errno.EHOSTUNREACH], ["exc", 4], ["exc", 6], ["exc", 9], ["exc", 0], ["exc", 12], ["exc", 255], ["senderr", errno.ENETUNREACH],
                ["senderr", errno.EACCES], ["junk", 0], ["junk", 1], ["junk", 3], ["junk", 4], ["junk", 5], ["junk", 6], ["junk", 7], ["junk", 8],
                ["connect", "refused"], ["connect", "unreach"], ["connect", "hang"]]
 
